@@ -203,7 +203,12 @@ def _srf(case, tags, **override):
         start["dim"] = 5 - spec["dim"]
     elif reuse == "len_scale":
         start["len_scale"] = spec["len_scale"] * 3.0
+    if reuse == "anis_stored":
+        start["anis"] = [0.4] * (spec["dim"] - 1)
     model = lib(build_model, start, _what="model construction", _tags=tags)
+    if reuse == "anis_stored":
+        # (the caller evaluates once, makes the model isotropic in place and asks again on the stored positions)
+        return gs.SRF(model, generator="VectorField", seed=case["seed"], mode_no=case["mode_no"], mean_velocity=mean_u, sampling=case.get("sampling", "auto"))
     if reuse == "set_generator":
         # an SRF that already carries a vector-field generator is given its settings anew through the documented set_generator call
         srf = gs.SRF(model, generator="VectorField", seed=(case["seed"] + 1) % 2**31, mode_no=2 * case["mode_no"], mean_velocity=3.0 * mean_u + 1.0)
@@ -286,7 +291,7 @@ def gen_kernel(draw, tier="quick"):
         "nugget2": draw(logfloat(1e-3, 10.0)),
     }
     if draw(st.integers(0, 3)) == 0:
-        case["reuse"] = "set_generator"
+        case["reuse"] = draw(st.sampled_from(["set_generator", "anis_stored"]))
     return case
 
 
@@ -299,7 +304,15 @@ def check_kernel(case, rec):
     pos = np.array(case["pos"], dtype=float).reshape(dim, -1)
     n = pos.shape[1]
     srf = _srf(case, tags)
-    out = np.asarray(lib(srf, pos, _what="SRF call", _tags=tags), dtype=float)
+    if case.get("reuse") == "anis_stored":
+        with common.quiet():
+            srf(pos)
+            srf.model.anis = [1.0] * (dim - 1)
+        rec.label("made_isotropic_in_place_then_stored_positions")
+        out = np.asarray(lib(srf, _what="SRF call on the stored positions", _tags=tags), dtype=float)
+        case = {k_: v_ for k_, v_ in case.items() if k_ != "reuse"}  # the further objects of this check are built fresh
+    else:
+        out = np.asarray(lib(srf, pos, _what="SRF call", _tags=tags), dtype=float)
     require(out.shape == (dim, n), f"vector field has shape {out.shape}, expected {(dim, n)}", dict(tags, kind="shape"))
     k, z1, z2 = _samples(srf, dim, n_modes, tags)
 
